@@ -8,8 +8,9 @@ WT="$1"; shift
 . "$(dirname "${BASH_SOURCE[0]}")/env.sh"
 OUT=$(mktemp -d /tmp/mutwt-XXXX)
 cp "$VERIF_ROOT/known_findings.json" $OUT/
-sed "s#=> /repo#=> $WT#" "$VERIF_ROOT/lab/go.mod" > $OUT/go.mod; cp "$VERIF_ROOT/lab/go.sum" $OUT/go.sum
-( cd "$VERIF_ROOT/lab" && go build -modfile=$OUT/go.mod -tags verif -o $OUT/lab ./cmd/lab 2>/dev/null && \
+LAB_SRC="${LAB_SRC:-$VERIF_ROOT/lab}"   # a frozen copy of the lab sources may be given (long regressions)
+sed "s#=> /repo#=> $WT#" "$LAB_SRC/go.mod" > $OUT/go.mod; cp "$LAB_SRC/go.sum" $OUT/go.sum
+( cd "$LAB_SRC" && go build -modfile=$OUT/go.mod -tags verif -o $OUT/lab ./cmd/lab 2>/dev/null && \
   go build -modfile=$OUT/go.mod -race -tags verif -o $OUT/lab-race ./cmd/lab 2>/dev/null ) || echo "BUILD FAILED"
 for id in "$@"; do
   s=$(date +%s)
